@@ -218,7 +218,8 @@ impl RawAutomaton {
             transitions: Vec::from_iter([(0..alphabet_size)
                 .map(|b| ((b as u8).into(), 0))
                 .collect::<Vec<_>>()]),
-            markers: FxHashSet::default(),
+            // All transitions carry the (absent) marker 0.
+            markers: FxHashSet::from_iter([0]),
         }
     }
 
